@@ -227,6 +227,7 @@ Example C14_default_base_units_nonvacuous :
     && compat_is (get_compatible faithful default_reg default_dimeq default_state {[ "meter" := 1%Qc ]} (Some "imperial")).2
             ["thou"; "inch"; "hand"; "foot"; "yard"; "mile"]
     && name_is (sys_attr default_reg default_state "imperial" "pint") "imperial_pint"
+    && name_is (sys_attr default_reg default_state "imperial" "pints") "imperial_pint"   (* resolved by the parser: a plural *)
     && name_is (sys_attr default_reg default_state "US" "pint") "pint"
     && name_is (sys_attr default_reg default_state "US" "ton") "US_ton" ) = true.
 Proof. vm_cast_no_check (eq_refl true). Qed.
